@@ -75,6 +75,36 @@ def run(ctx: Ctx) -> None:
     # type tracing is on: terminating test cases are executed twice, timed-out ones must not be)
     jobs = [(b, str(ctx.work / "sut" / f"w{n % 64}"), f"{ctx.seed}x{n}", n % 3 == 2) for n, b in enumerate(cases)]
     results = parallel_map(_run, jobs, procs=12, chunksize=4)
+    # "within the configured bound (plus a grace period)" is a wall-clock statement: a schedule whose only
+    # blemish is lateness is run again on its own (no sibling processes of this check), and the machine's
+    # own scheduling delay is measured next to it; lateness that does not repeat, or that coincides with a
+    # machine that cannot even keep a 0.25 s sleep within a second, is drift, not a verdict
+    import multiprocessing as mp  # noqa: PLC0415
+    import time  # noqa: PLC0415
+
+    retried = 0
+    for n, r in enumerate(results):
+        if any(e["late"] and e["timeout"] and not e["hung"] for e in r["ev"]):
+            for _ in range(2):
+                t0 = time.time()
+                time.sleep(0.25)
+                delay = time.time() - t0 - 0.25
+                with mp.get_context("fork").Pool(1) as pool:  # own process: abandoned threads die with it
+                    again = pool.map(_run, [jobs[n]])[0]
+                retried += 1
+                if not any(e["late"] for e in again["ev"]):
+                    ctx.drift.append(f"late timeout report did not repeat when the schedule ran alone: "
+                                     f"{[e['elapsed_ms'] for e in r['ev']]} -> {[e['elapsed_ms'] for e in again['ev']]} ms")
+                    results[n] = again
+                    break
+                if delay > 1.0:
+                    ctx.drift.append(f"machine too loaded to judge lateness (a 0.25 s sleep took {delay + 0.25:.1f} s)")
+                    for e in again["ev"]:
+                        e["late"] = False
+                    results[n] = again
+                    break
+                results[n] = again
+    ctx.notes["late_schedules_rerun_alone"] = retried
     traces = [{"ev": r["ev"]} for r in results]
     ctx.evaluations = len(traces)
     for b, r in zip(cases, results):
